@@ -648,6 +648,7 @@ def run(ctx):
         "a banner that names an EBB but carries no version is treated as unverified",
     ]
     coverage["rule"] += ('; every gated feature again with 20 nickname texts (blank, white space only, protocol words, version-like, 16 / 17 / 64 characters) and 18 timeout / state pairs x 12 versions')
+    coverage["rule"] += ('; 748 ordered pairs of (version, threshold) questions that read alike when written together or swapped, second one judged')
     return {"part": part, "coverage": coverage, "assumptions": assumptions}
 
 
